@@ -41,6 +41,13 @@ FORBIDDEN = re.compile(
 os.environ.setdefault("AIU_TRACE_ANALYZER_VERIF", "1")
 
 
+ENOUGH = 60
+
+
+class Enough(BaseException):
+    """raised by Ctx.violation once the number of violations observed on the real code makes further exploration pointless"""
+
+
 class Infra(Exception):
     """infrastructure failure: exit 2, never a violation"""
 
@@ -271,6 +278,11 @@ class Ctx:
                 return
         if len(self.violations) < 20:
             self.violations.append({"classifier": classifier, "desc": desc, "case": case})
+        self.n_violations = getattr(self, "n_violations", 0) + 1
+        if self.n_violations >= ENOUGH and not getattr(self, "no_early_stop", False):
+            # the verdict cannot change any more; a grossly changed implementation can make the remaining cases
+            # arbitrarily expensive (state accumulating across runs), so stop exploring here
+            raise Enough(f"{self.n_violations} oracle violations on the real code: exploration stopped early")
 
     def obligation_broken(self, what: str, detail: str):
         self.broken.append({"kind": "obligation", "what": what, "detail": detail[-4000:]})
